@@ -6,6 +6,7 @@ import (
 	"io"
 	"math/rand/v2"
 	"runtime"
+	"strings"
 	"sync"
 	"sync/atomic"
 
@@ -29,9 +30,19 @@ type rchan struct {
 	est      bool
 	muxOpens bool
 	pure     bool // only discarded extended data
-	extra    int  // bytes beyond the initial window that must get through
-	salt     [2]uint64
-	rng      *rand.Rand // sender goroutine only
+	dataOnly bool // only data and stderr (mux.loop needs this channel's write lock only when it exits)
+	hookRng  *rand.Rand
+	goal     uint64
+	// data sent from inside the mux's own WINDOW_ADJUST write (see afterWrite)
+	ansConsumed [3]int // by class, consumption by mux.loop confirmed before the write returned
+	ansRead     [3]int // by class, handed to mux.loop before the write returned (loop then needed the caller's lock)
+	ansEdge     int
+	ansPart     int
+	ansNoWait   int // adjust written by mux.loop itself (cannot wait for itself)
+	ansUnconf   int // loop did not get to the packet within the bounded wait
+	extra       int // bytes beyond the initial window that must get through
+	salt        [2]uint64
+	rng         *rand.Rand // sender goroutine only
 
 	win       uint64
 	initWin   uint64
@@ -49,6 +60,7 @@ type rchan struct {
 
 type recvPeer struct {
 	end      *End
+	pipe     *Pipe
 	mu       sync.Mutex
 	cond     *sync.Cond
 	chans    []*rchan
@@ -92,13 +104,7 @@ func (p *recvPeer) run() {
 					c.win, c.initWin, c.maxPkt = uint64(m.Window), uint64(m.Window), m.MaxPacket
 				}
 			case MsgChanAdjust:
-				if c := p.byPeerID[m.Chan]; c != nil {
-					c.win += uint64(m.Window)
-					c.adjSum += uint64(m.Window)
-					if c.win > maxWindow {
-						p.problems = append(p.problems, problem{"receiver-window-above-2^32-1", map[string]any{"channel": c.name, "window": c.win}})
-					}
-				}
+				// credited in afterWrite, at the moment the mux wrote it
 			case MsgChanClose:
 				if c := p.byPeerID[m.Chan]; c != nil && !c.closeSent {
 					c.closeSent = true
@@ -153,12 +159,8 @@ func (p *recvPeer) sender(c *rchan) {
 	}
 	// counted bytes (data+stderr are only credited when read; discarded bytes at once)
 	goal := c.initWin + uint64(c.extra)
-	counted := func() uint64 {
-		if c.pure {
-			return c.sent[2]
-		}
-		return c.sent[0] + c.sent[1]
-	}
+	c.goal = goal
+	counted := func() uint64 { return c.counted() }
 	for counted() < goal {
 		// next item
 		var cls int
@@ -166,6 +168,9 @@ func (p *recvPeer) sender(c *rchan) {
 			cls = 2
 		} else {
 			cls = mon.Pick(c.rng, []int{0, 0, 0, 1, 1, 2})
+			if c.dataOnly && cls == 2 {
+				cls = 0
+			}
 		}
 		var n int
 		switch c.rng.IntN(5) {
@@ -201,38 +206,7 @@ func (p *recvPeer) sender(c *rchan) {
 			if uint64(k) > c.win {
 				k = int(c.win)
 			}
-			// packets are built in place and handed over (no copies)
-			switch cls {
-			case 0:
-				pkt := make([]byte, 9+k)
-				pkt[0] = MsgChanData
-				binary.BigEndian.PutUint32(pkt[1:], c.muxID)
-				binary.BigEndian.PutUint32(pkt[5:], uint32(k))
-				fillStamps(pkt[9:], c.salt[0], c.sent[0])
-				p.end.WriteOwned(pkt)
-			default:
-				pkt := make([]byte, 13+k)
-				pkt[0] = MsgChanExtData
-				binary.BigEndian.PutUint32(pkt[1:], c.muxID)
-				binary.BigEndian.PutUint32(pkt[9:], uint32(k))
-				if cls == 1 {
-					binary.BigEndian.PutUint32(pkt[5:], 1)
-					fillStamps(pkt[13:], c.salt[1], c.sent[1])
-				} else {
-					binary.BigEndian.PutUint32(pkt[5:], mon.Pick(c.rng, extCodes))
-					fillStamps(pkt[13:], c.salt[0]^0x5555, c.sent[2])
-					c.discEnds = append(c.discEnds, c.sent[2]+uint64(k))
-				}
-				p.end.WriteOwned(pkt)
-			}
-			c.sent[cls] += uint64(k)
-			c.win -= uint64(k)
-			if c.win == 0 {
-				c.exactFill++
-			}
-			if k == int(c.maxPkt) {
-				c.maxHits++
-			}
+			p.sendLocked(c, cls, k, c.rng)
 			n -= k
 			if c.rng.IntN(8) == 0 {
 				p.mu.Unlock()
@@ -244,6 +218,164 @@ func (p *recvPeer) sender(c *rchan) {
 	p.end.WritePacket(EncEOF(c.muxID))
 	c.done = true
 	p.cond.Broadcast()
+}
+
+func (c *rchan) counted() uint64 {
+	if c.pure {
+		return c.sent[2]
+	}
+	return c.sent[0] + c.sent[1]
+}
+
+// sendLocked writes one data packet of k bytes (k <= window, k <= max packet),
+// built in place and handed over without copies. p.mu is held.
+func (p *recvPeer) sendLocked(c *rchan, cls, k int, rng *rand.Rand) int64 {
+	var seq int64
+	switch cls {
+	case 0:
+		pkt := make([]byte, 9+k)
+		pkt[0] = MsgChanData
+		binary.BigEndian.PutUint32(pkt[1:], c.muxID)
+		binary.BigEndian.PutUint32(pkt[5:], uint32(k))
+		fillStamps(pkt[9:], c.salt[0], c.sent[0])
+		seq, _ = p.end.WriteSeq(pkt)
+	default:
+		pkt := make([]byte, 13+k)
+		pkt[0] = MsgChanExtData
+		binary.BigEndian.PutUint32(pkt[1:], c.muxID)
+		binary.BigEndian.PutUint32(pkt[9:], uint32(k))
+		if cls == 1 {
+			binary.BigEndian.PutUint32(pkt[5:], 1)
+			fillStamps(pkt[13:], c.salt[1], c.sent[1])
+		} else {
+			binary.BigEndian.PutUint32(pkt[5:], mon.Pick(rng, extCodes))
+			fillStamps(pkt[13:], c.salt[0]^0x5555, c.sent[2])
+			c.discEnds = append(c.discEnds, c.sent[2]+uint64(k))
+		}
+		seq, _ = p.end.WriteSeq(pkt)
+	}
+	c.sent[cls] += uint64(k)
+	c.win -= uint64(k)
+	if c.win == 0 {
+		c.exactFill++
+	}
+	if k == int(c.maxPkt) {
+		c.maxHits++
+	}
+	return seq
+}
+
+func calledFromLoop() bool {
+	pc := make([]uintptr, 24)
+	n := runtime.Callers(2, pc)
+	fr := runtime.CallersFrames(pc[:n])
+	for {
+		f, more := fr.Next()
+		if strings.HasSuffix(f.Function, "ssh.(*mux).loop") {
+			return true
+		}
+		if !more {
+			return false
+		}
+	}
+}
+
+// afterWrite runs INSIDE the mux's WritePacket. When the mux writes a
+// WINDOW_ADJUST for a channel whose sender sits on a zero window, the peer
+// answers at once with data that uses the credit just granted (up to the new
+// window edge exactly, or a small part of it) and - unless the writer is
+// mux.loop itself - does not let the write return before mux.loop has consumed
+// that data. A compliant receiver must accept it: the credit is on the wire.
+func (p *recvPeer) afterWrite(end int, pkt []byte, wseq int64) {
+	if end != 0 || len(pkt) != 9 || pkt[0] != MsgChanAdjust {
+		return
+	}
+	id, add := binary.BigEndian.Uint32(pkt[1:]), binary.BigEndian.Uint32(pkt[5:])
+	p.mu.Lock()
+	c := p.byPeerID[id]
+	if c == nil || !c.est {
+		p.mu.Unlock()
+		return
+	}
+	c.win += uint64(add)
+	c.adjSum += uint64(add)
+	if c.win > maxWindow {
+		p.problems = append(p.problems, problem{"receiver-window-above-2^32-1", map[string]any{"channel": c.name, "window": c.win}})
+	}
+	last, cls, edge := int64(-1), 0, false
+	if c.starved && c.goal > 0 && !c.done && !p.eof && !p.aborted && c.win > 0 {
+		r := c.hookRng
+		switch {
+		case c.pure:
+			cls = 2
+		case c.dataOnly:
+			cls = r.IntN(2)
+		default:
+			cls = r.IntN(3)
+		}
+		budget := c.win
+		edge = r.IntN(2) == 0
+		if !edge {
+			lim := budget
+			if lim > 4096 {
+				lim = 4096
+			}
+			budget = 1 + r.Uint64N(lim)
+			edge = budget == c.win
+		}
+		if cls != 2 || c.pure {
+			rest := uint64(0)
+			if cn := c.counted(); cn < c.goal {
+				rest = c.goal - cn
+			}
+			if budget > rest {
+				budget, edge = rest, false
+			}
+		}
+		for budget > 0 {
+			k := budget
+			if k > uint64(c.maxPkt) {
+				k = uint64(c.maxPkt)
+			}
+			last = p.sendLocked(c, cls, int(k), r)
+			budget -= k
+		}
+	}
+	p.cond.Broadcast()
+	p.mu.Unlock()
+	if last < 0 {
+		return
+	}
+	if calledFromLoop() {
+		p.mu.Lock()
+		c.ansNoWait++
+		p.mu.Unlock()
+		return
+	}
+	// The caller holds the channel's write lock. On a data-only channel
+	// mux.loop needs that lock only on its way out (channel.close), so the
+	// wait can be generous; elsewhere the loop may need it to credit discarded
+	// data, so the wait is short. Timing only decides how often the situation
+	// is confirmed, never a verdict.
+	polls, after := 40, 6
+	if c.dataOnly {
+		polls, after = 4000, 300
+	}
+	ok := p.pipe.WaitConsumed(0, last, polls, after)
+	p.mu.Lock()
+	if ok {
+		c.ansConsumed[cls]++
+		if edge {
+			c.ansEdge++
+		} else {
+			c.ansPart++
+		}
+	} else if p.pipe.WasRead(0, last) {
+		c.ansRead[cls]++ // handed to mux.loop (its window check comes first) before the write returned
+	} else {
+		c.ansUnconf++
+	}
+	p.mu.Unlock()
 }
 
 type streamReader struct {
@@ -281,25 +413,30 @@ func readStream(rd io.Reader, salt uint64, r *rand.Rand, sr *streamReader, maxCh
 }
 
 func recvCase(m *mon.M, i int64, r *rand.Rand) {
-	nch := 2 + r.IntN(2) // channel 1 carries only discarded extended data, the others data+stderr(+discarded)
+	nch := 3 + r.IntN(2) // channel 1: only discarded extended data; channel 2: only data+stderr; the others data+stderr+discarded
 	pipe := NewPipe(1 << 16)
 	fc := NewFlowChecker(true, false)
+	fc.CreditAtWrite[1] = true // the harness sender reacts inside the mux's adjust write
 	pipe.Observe = fc.Observe
-	peer := &recvPeer{end: pipe.End(1), byPeerID: map[uint32]*rchan{}, byName: map[string]*rchan{}, done: make(chan struct{})}
+	peer := &recvPeer{end: pipe.End(1), pipe: pipe, byPeerID: map[uint32]*rchan{}, byName: map[string]*rchan{}, done: make(chan struct{})}
 	peer.cond = sync.NewCond(&peer.mu)
 	cls := fmt.Sprintf("recv n=%d", nch)
 	for k := 0; k < nch; k++ {
 		c := &rchan{name: fmt.Sprintf("r%d", k), peerID: uint32(7 + 13*k), muxOpens: r.IntN(2) == 0,
-			pure: k == 1, extra: 1 + mon.LogUniform(r, 1, 400000), salt: [2]uint64{r.Uint64(), r.Uint64()},
-			rng: rand.New(rand.NewPCG(r.Uint64(), r.Uint64()))}
+			pure: k == 1, dataOnly: k == 2, extra: 1 + mon.LogUniform(r, 1, 400000), salt: [2]uint64{r.Uint64(), r.Uint64()},
+			rng: rand.New(rand.NewPCG(r.Uint64(), r.Uint64())), hookRng: rand.New(rand.NewPCG(r.Uint64(), r.Uint64()))}
 		if c.pure {
 			c.extra += 300000
+		}
+		if c.dataOnly {
+			c.extra += 200000
 		}
 		peer.chans = append(peer.chans, c)
 		peer.byPeerID[c.peerID] = c
 		peer.byName[c.name] = c
-		cls += fmt.Sprintf(" | pure=%v muxOpens=%v", c.pure, c.muxOpens)
+		cls += fmt.Sprintf(" | pure=%v dataOnly=%v muxOpens=%v", c.pure, c.dataOnly, c.muxOpens)
 	}
+	pipe.AfterWrite = peer.afterWrite
 	mux := ssh.VerifNewMux(pipe.End(0))
 	app := startApp(mux)
 	go peer.run()
@@ -355,7 +492,12 @@ func recvCase(m *mon.M, i int64, r *rand.Rand) {
 			<-chanOf(func() { werr = mux.Wait() })
 			w := witness()
 			w["mux_wait_error"], w["phase"] = fmt.Sprint(werr), key
-			m.Violation("receiver-terminated-connection-on-compliant-sender:"+errClass(werr), w)
+			if strings.Contains(fmt.Sprint(werr), "wrote too much") {
+				// the sender stayed within the credit the receiver itself had put on the wire
+				m.Violation("receiver-rejects-data-within-granted-window", w)
+			} else {
+				m.Violation("receiver-terminated-connection-on-compliant-sender:"+errClass(werr), w)
+			}
 			return false
 		}
 		return true
@@ -448,6 +590,18 @@ func recvCase(m *mon.M, i int64, r *rand.Rand) {
 				m.Count("recv_max_size_packets", c.maxHits)
 				m.Count("recv_starvation_episodes", c.episodes)
 				m.Count("recv_discarded_packets", len(c.discEnds))
+				n := c.ansConsumed[0] + c.ansConsumed[1] + c.ansConsumed[2]
+				m.Count("recv_data_answered_inside_adjust_write", n)
+				m.Count("recv_answered_inside_adjust_write:data", c.ansConsumed[0])
+				m.Count("recv_answered_inside_adjust_write:stderr", c.ansConsumed[1])
+				m.Count("recv_answered_inside_adjust_write:discarded", c.ansConsumed[2])
+				m.Count("recv_answered_inside_adjust_write_and_read_by_loop:data", c.ansRead[0])
+				m.Count("recv_answered_inside_adjust_write_and_read_by_loop:stderr", c.ansRead[1])
+				m.Count("recv_answered_inside_adjust_write_and_read_by_loop:discarded", c.ansRead[2])
+				m.Count("recv_answered_inside_adjust_write:to_exact_window_edge", c.ansEdge)
+				m.Count("recv_answered_inside_adjust_write:part_of_credit", c.ansPart)
+				m.Count("recv_answered_adjust_written_by_loop_itself", c.ansNoWait)
+				m.Count("recv_answered_but_consumption_unconfirmed", c.ansUnconf)
 				if c.pure {
 					cred := 0
 					for _, e := range c.discEnds {
